@@ -442,6 +442,25 @@ def _check_case_inner(case, sess, d, cfg, lo, hi):
             sess.nontrivial.add(chash(case))
         if altered:
             sess.count("cases_with_sanitised_edges")
+        # --- a long-lived ctx: the weight bounds are changed in place on its configuration and the same state is written again
+        #     through the same ctx.  The body must be the one a fresh ctx with an equal configuration writes.
+        try:
+            nlo, nhi = [(-0.1, 0.1), (0.0, 0.05), (lo / 2.0 if lo else -0.05, hi / 2.0 if hi else 0.05), (-5.0, 5.0)][len(case["edges"]) % 4]
+            if not (nlo < nhi):
+                nlo, nhi = -0.1, 0.1
+            where = "graph" if (len(case["weights"]) % 2 and "graph" in cfg) else "t4"
+            cfg[where]["weight_min"], cfg[where]["weight_max"] = nlo, nhi
+            p_live = S.write_snapshot(ctx, state, case["version"], applied=0, deltas=[])
+            b_live = open(p_live, "rb").read()
+            import json as _json
+            cfg_twin = to_ad(_json.loads(_json.dumps(cfg)))
+            p_twin = S.write_snapshot(NS(turn_id=case["turn"], agent_id=case["agent"], cfg=cfg_twin, config=cfg_twin), state, case["version"], applied=0, deltas=[])
+            b_twin = open(p_twin, "rb").read()
+            sess.count("rewrites_through_a_long_lived_ctx_after_a_bounds_change")
+            if b_live != b_twin:
+                sess.violation("long-lived-ctx:snapshot-follows-stale-bounds", case, {"bounds_now": [nlo, nhi], "section": where, "bounds_before": [lo, hi]})
+        except Exception as ex:
+            sess.violation("write-raises:" + type(ex).__name__, case, repr(ex)[:200])
 
 
 def _chunk(args):
@@ -474,6 +493,7 @@ def main(tier: str, seed: int):
     sess.require("snapshots_written", 300)
     sess.require("snapshots_loaded", 300)
     sess.require("rewrites_compared", 500)
+    sess.require("rewrites_through_a_long_lived_ctx_after_a_bounds_change", 100)
     sess.require("cases_with_sanitised_edges", 100)
     sess.require("discovery_calls", 300)
     sess.require("auto_writer_files_checked:delta", 100)
